@@ -4,6 +4,7 @@ import json
 from core import Property, Stream
 import reports_common as rc
 from c01_e2e import E2EModelStream
+import c01s16
 
 CATS = ("missing", "unused", "bad", "deprecated", "noext", "nocop", "nolic", "readerr")
 
@@ -97,7 +98,7 @@ class CellStream(VerdictOracle, Stream):
 
 PROPERTY = Property(
     pid="C01",
-    streams=[TreeStream(), CellStream(), E2EModelStream()],
+    streams=[TreeStream(), CellStream(), E2EModelStream()] + c01s16.STREAMS,
     table_roundtrip=rc.table_roundtrip,
     assumptions=[
         "streams trees / cells: the model receives the abstract project (per covered file: readable?, any copyright line?, identifiers "
